@@ -148,7 +148,7 @@ class Gen:
         r = self.r
         self.t("import")
         self.t("(")
-        n = r.choice([0, 1, 2, 3]) if self.o["empties"] else r.randint(1, 3)
+        n = r.choice([0, 1, 2, 3, 4, 6]) if self.o["empties"] else r.randint(1, 6)
         for _ in range(n):
             self.t('"%s.api"' % self.ident() if r.random() < 0.85 else self.string(), "any-n")
         self.t(")", "any-n")
@@ -320,10 +320,10 @@ class Gen:
         # a comment inside an empty service body is finding F16
         self.t("}", "any-n" if (nitems > 0 or self.o["svc_comment"]) else "nocomment")
 
-    def body(self, gap=None):
+    def body(self, gap=None, nonempty=False):
         r = self.r
         self.t("(", gap)
-        if self.o["empties"] and r.random() < 0.06:
+        if self.o["empties"] and not nonempty and r.random() < 0.06:
             self.t(")")
             return
         if r.random() < 0.25:
@@ -372,7 +372,7 @@ class Gen:
         after_path = "f10" if (self.o["f10"] and r.random() < 0.35) else "path-end"
         x = r.random()
         if x < 0.75:
-            self.body(after_path)
+            self.body(after_path, nonempty=(after_path == "f10"))
             if r.random() < 0.7:
                 self.t("returns")
                 self.body()
@@ -612,8 +612,11 @@ def mutants(rng, src, n):
                 i = rng.randrange(len(toks) - 1)
                 (a, b), (c, d) = toks[i], toks[i + 1]
                 s = src[:a] + src[c:d] + src[b:c] + src[a:b] + src[d:]
-        elif x < 0.65:   # truncate
+        elif x < 0.58:   # truncate anywhere
             s = src[:rng.randrange(1, max(2, len(src)))]
+        elif x < 0.65:   # truncate right after an operator ("dangling operator")
+            ops = [e for (a, e) in toks if src[a:e] in ("-", ":", "=", "(", "[", "{", "/", "*", ",", "@handler", "@doc", "returns")]
+            s = src[:rng.choice(ops)] if ops else src[:rng.randrange(1, max(2, len(src)))]
         elif x < 0.85:   # insert garbage at a token boundary
             a, b = rng.choice(toks)
             pos = rng.choice([a, b])
